@@ -390,6 +390,17 @@ def deep_probe(model):
             dicts.append(vars(v))
     md = getattr(model, "__dict__", {})
     cont = (dict, list, set)
+    prim = (int, float, bool, str, type(None))
+    # objects of library-defined classes kept in module globals (a holder with __slots__, a
+    # registry instance): their attribute VALUES are shared state too
+    from oracles import instance_attrs
+
+    holders = []
+    for d in dicts:
+        for v in list(d.values()):
+            tm = getattr(type(v), "__module__", "") or ""
+            if tm.startswith("openskill") and not isinstance(v, type) and not callable(v):
+                holders.append(v)
 
     def probe():
         out = [tuple(map(id, md.values()))]
@@ -397,6 +408,8 @@ def deep_probe(model):
             vals = tuple(d.values())
             out.append(tuple(map(id, vals)))
             out.append(sum(len(v) for v in vals if type(v) in cont))
+        for h in holders:
+            out.append(tuple(v if type(v) in prim else id(v) for v in instance_attrs(h).values()))
         return out
 
     return probe
@@ -528,11 +541,17 @@ class CallsDriver:
         groups = [pool[i * per:(i + 1) * per] for i in range(k)]
         threads = []
         frng = ctx.rng("faults")
+        predict_heavy = rng.random() < 0.15
         for g in groups:
             ops = []
-            for _ in range(rng.randint(1, 3)):
+            for _ in range(rng.randint(1, 3) if not predict_heavy else rng.randint(2, 4)):
                 r = rng.random()
-                if r < 0.75:
+                if predict_heavy:
+                    # match-making queries only, on line-ups of one of two sizes
+                    o = gen_predict_op(rng, g, self.league, shape=(rng.choice([2, 2, 3]), rng.choice([1, 2])))
+                    if o:
+                        o["kind"] = rng.choice(["draw", "rank", "draw", "win"])
+                elif r < 0.75:
                     o = gen_rate_op(rng, ctx, self.league, g, max(p["opt_rate"], 0.4), shape=(3, 2), rule=p["rule"])
                 elif r < 0.9:
                     o = gen_predict_op(rng, g, self.league, shape=(3, 2))
